@@ -142,6 +142,10 @@ func model[V any](c *cfg[V], op Op, m []V, opnd []V, eq func(a, b V) bool) expec
 		return expect[V]{state: s}
 	case "SetValues":
 		if len(opnd) == 0 {
+			// nothing to write: the statement is silent about an in-range index; an index outside the sequence panics
+			if _, ok := norm(op.I, n); !ok {
+				return expect[V]{mustPanic: true}
+			}
 			return expect[V]{mayPanic: true, state: cp()}
 		}
 		p, ok := norm(op.I, n)
@@ -159,10 +163,7 @@ func model[V any](c *cfg[V], op Op, m []V, opnd []V, eq func(a, b V) bool) expec
 		return expect[V]{state: s}
 	case "InsertValues":
 		if op.I < 0 || op.I > n {
-			if len(opnd) == 0 {
-				return expect[V]{mayPanic: true, state: cp()}
-			}
-			return expect[V]{mustPanic: true}
+			return expect[V]{mustPanic: true} // "a call whose ... slot ... lies outside the sequence panics" - whatever it was asked to insert
 		}
 		s := append(append(append([]V(nil), m[:op.I]...), opnd...), m[op.I:]...)
 		return expect[V]{state: s}
@@ -532,6 +533,38 @@ func run[V any](r *engine.Rec, c *cfg[V], maxN int) {
 		}
 		return ops
 	}
+	// A bystander: a second collection of the same class, built by the same operations over a rotated value
+	// alphabet. What is kept per class (shared by all instances of one element type) instead of per instance
+	// shows as an operation on one collection changing the other.
+	rot := *c
+	rot.alpha = append(append([]V(nil), c.alpha[1:]...), c.alpha[0])
+	replayOn := func(cc *cfg[V], path []Op) (obj seqLike[V], m []V, ok bool) {
+		var out rt.Outcome
+		obj, m, _, out = constructG(cc, path[0])
+		if out.Panicked {
+			return nil, nil, false
+		}
+		for _, p := range path[1:] {
+			opnd, content, okk := operand[V](cc, p.S, obj, m)
+			if !okk {
+				return nil, nil, false
+			}
+			exp := model(cc, p, m, content, eq)
+			_, o := apply(cc, p, obj, opnd, ranker)
+			if o.Fuel {
+				return nil, nil, false
+			}
+			if o.Panicked {
+				continue
+			}
+			if exp.permOnly || p.K == "SortValues" || p.K == "SortReverse" {
+				m = obj.AsArray()
+			} else {
+				m = exp.state
+			}
+		}
+		return obj, m, true
+	}
 	s.Exec = func(path []Op, op Op) seqx.Step {
 		cs := seqx.Case[Op]{Search: name, Path: path, Op: op}
 		viol := func(sig, detail string) seqx.Step {
@@ -581,6 +614,10 @@ func run[V any](r *engine.Rec, c *cfg[V], maxN int) {
 			}
 		}
 		n := len(m)
+		by, bm, okBy := replayOn(&rot, path)
+		if okBy && !eqSlices(obj.AsArray(), m) {
+			return viol("building and using another "+kind+" of the same element type changes this one", fmt.Sprintf("got %v want %v (the other one holds %v)", obj.AsArray(), m, bm))
+		}
 		opnd, content, ok := operand[V](c, op.S, obj, m)
 		if !ok {
 			return seqx.Step{}
@@ -684,6 +721,22 @@ func run[V any](r *engine.Rec, c *cfg[V], maxN int) {
 		}
 		if it.HasNext() {
 			return viol(class+" iterator longer than contents", fmt.Sprint(ns))
+		}
+		if okBy && !eqSlices(by.AsArray(), bm) {
+			return viol(class+" changes another "+kind+" of the same element type", fmt.Sprintf("the other one: got %v want %v", by.AsArray(), bm))
+		}
+		if okBy {
+			// ... and the same operation on the other one must leave this one alone
+			if bopnd, bcontent, okk := operand[V](&rot, op.S, by, bm); okk {
+				bexp := model(&rot, op, bm, bcontent, eq)
+				_, bo := apply(&rot, op, by, bopnd, ranker)
+				switch {
+				case !eqSlices(obj.AsArray(), exp.state):
+					return viol(class+" on another "+kind+" of the same element type changes this one", fmt.Sprintf("got %v want %v", obj.AsArray(), exp.state))
+				case !bo.Panicked && !bo.Fuel && !bexp.permOnly && op.K != "SortValues" && op.K != "SortReverse" && !eqSlices(by.AsArray(), bexp.state):
+					return viol(class+" wrong resulting sequence on a second "+kind+" of the same element type", fmt.Sprintf("got %v want %v", by.AsArray(), bexp.state))
+				}
+			}
 		}
 		for gi, g := range guards {
 			if !eqSlices(g.seq.AsArray(), g.want) {
